@@ -13,6 +13,10 @@
 //	R3  a collection is started only if no request is waiting for a mutex, and one that is
 //	    held in a clock reading only if no request holds a limiter (which limiter the
 //	    collection reaches first depends on the map order)
+//	R4  a request held at the yield point after getLimiterState (family "gap", only on a tree
+//	    with the hook) is released only while no collection is active and no request of its
+//	    group is waiting for a mutex (it goes straight for its limiter's mutex; a collection
+//	    parked in or waiting for that limiter would race with it)
 package main
 
 import (
@@ -77,7 +81,8 @@ func (g *ogen) sameKeyWaiting(i int) bool {
 
 func (g *ogen) canStart(i int) bool { return g.reqSt(i) == -1 && !g.sameKeyWaiting(i) }
 func (g *ogen) canRelease(i int) bool {
-	return g.reqSt(i) == 2 || (g.reqSt(i) == 1 && !g.sameKeyWaiting(i))
+	return g.reqSt(i) == 2 || (g.reqSt(i) == 1 && !g.sameKeyWaiting(i)) ||
+		(g.reqSt(i) == 4 && !g.colActive() && !g.sameKeyWaiting(i))
 }
 func (g *ogen) canCollect(j int) bool {
 	return g.colSt(j) == -1 && !g.colActive() && !g.anyReq(0) && (len(g.k.Cols[j]) == 0 || !g.anyReq(2))
@@ -175,6 +180,12 @@ func (g *ogen) addReq(k okey, parkH, parkC bool) int {
 	return len(g.k.Reqs) - 1
 }
 
+func (g *ogen) addGapReq(k okey, parkC bool) int {
+	i := g.addReq(k, false, parkC)
+	g.k.Reqs[i].ParkG = true
+	return i
+}
+
 func (g *ogen) addFollowUps(ks []okey) {
 	for _, k := range ks {
 		n := int(g.share(k)) + 1
@@ -242,7 +253,7 @@ func (g *ogen) finish(planned []int) {
 			if g.canStart(i) {
 				ops = append(ops, OvOp{K: "start", I: i})
 			}
-			if g.reqSt(i) == 1 || g.reqSt(i) == 2 {
+			if g.reqSt(i) == 1 || g.reqSt(i) == 2 || g.reqSt(i) == 4 {
 				if g.canRelease(i) {
 					ops = append(ops, OvOp{K: "release", I: i})
 				}
@@ -445,6 +456,97 @@ func genOverlapMixed(r *c.Rng) *OverlapCase {
 	return g.k
 }
 
+// "gap": requests held right after getLimiterState has registered / returned their limiter
+// (no mutex held; a just registered state has no window data yet) while collections run and
+// other requests of the same and of other groups pass them
+func genOverlapGap(r *c.Rng) *OverlapCase {
+	g := &ogen{r: r, k: &OverlapCase{Family: "gap"}}
+	g.remedies()
+	ks := g.keys()
+	var warm, gap, others []int
+	fresh := map[okey]bool{}
+	for _, k := range ks {
+		if r.Chance(1, 3) {
+			warm = append(warm, g.addReq(k, false, false))
+		} else {
+			fresh[k] = true
+		}
+	}
+	for _, k := range ks {
+		if fresh[k] && (len(gap) == 0 || r.Bool()) {
+			gap = append(gap, g.addGapReq(k, r.Chance(1, 6)))
+		}
+	}
+	if len(gap) == 0 || r.Chance(1, 4) { // also on a limiter that exists already
+		gap = append(gap, g.addGapReq(c.Pick(r, ks), false))
+	}
+	for n := r.Range(0, 2); n > 0; n-- {
+		others = append(others, g.addReq(c.Pick(r, ks), r.Chance(1, 4), false))
+	}
+	g.addFollowUps(ks)
+	switch r.Intn(5) {
+	case 0:
+		g.k.Cols = [][]int{{}, {}}
+	case 1:
+		g.k.Cols = [][]int{{1}}
+	case 2:
+		g.k.Cols = [][]int{{}, {r.Range(1, 2)}}
+	default:
+		g.k.Cols = [][]int{{}}
+	}
+	g.begin()
+	for _, i := range warm {
+		g.do(OvOp{K: "start", I: i})
+	}
+	if r.Chance(2, 3) {
+		g.moveClock(c.Pick(r, []int{0, 0, 1, 2, 3, 4}))
+	}
+	for _, i := range gap {
+		if g.canStart(i) {
+			g.do(OvOp{K: "start", I: i})
+		}
+	}
+	// the first collection meets the registered, still empty states
+	if g.canCollect(0) {
+		g.do(OvOp{K: "collect", I: 0})
+	}
+	planned := append(append(append([]int{}, warm...), gap...), others...)
+	for step := r.Range(2, 8); step > 0; step-- {
+		var ops []OvOp
+		for j := range g.k.Cols {
+			if g.colSt(j) == 2 {
+				ops = append(ops, OvOp{K: "resume", I: j})
+			}
+			if g.canCollect(j) {
+				ops = append(ops, OvOp{K: "collect", I: j})
+			}
+		}
+		for _, i := range others {
+			if g.canStart(i) {
+				ops = append(ops, OvOp{K: "start", I: i})
+			}
+			if g.reqSt(i) == 1 && g.canRelease(i) {
+				ops = append(ops, OvOp{K: "release", I: i})
+			}
+		}
+		for _, i := range gap {
+			if (g.reqSt(i) == 4 || g.reqSt(i) == 2) && g.canRelease(i) {
+				ops = append(ops, OvOp{K: "release", I: i})
+			}
+		}
+		if !g.colActive() && r.Chance(1, 6) {
+			g.moveClock(c.Pick(r, []int{1, 2, 3, 3, 4, 5}))
+			continue
+		}
+		if len(ops) == 0 {
+			break
+		}
+		g.do(c.Pick(r, ops))
+	}
+	g.finish(planned)
+	return g.k
+}
+
 func genOverlap(o *c.Out) {
 	r := o.Rng.Fork(9)
 	n := o.Scale(83, 1500, 1200)
@@ -452,5 +554,15 @@ func genOverlap(o *c.Out) {
 		runOverlapCase(o, genOverlapInflight(r))
 		runOverlapCase(o, genOverlapHolder(r))
 		runOverlapCase(o, genOverlapMixed(r))
+	}
+	// the yield point after getLimiterState exists only on a tree with
+	// patches/C09/hook-limit-state-obtained.patch
+	if !gapHook() {
+		o.Count("overlap:gap-hook-absent")
+		return
+	}
+	rg := o.Rng.Fork(10)
+	for i := 0; i < o.Scale(60, 1200, 1500); i++ {
+		runOverlapCase(o, genOverlapGap(rg))
 	}
 }
